@@ -378,6 +378,12 @@ def run_episode(env, cfg):
         start = 0
         if cfg.get("stagger") and i > 0:
             start = env.real(f"start{i}", 0, cfg.get("stagger"))
+            if cfg.get("near_T0"):
+                # only the neighbourhood of the first caller's timeout instant (the rest of the plane is the subject of
+                # the other two-caller queries): |start - T0| <= 20 ms
+                near = Fraction(2, 100)
+                if env.symbolic:
+                    env.ctx.assume(env.all_(start >= callers[0]["T"] - near, start <= callers[0]["T"] + near).e)
         callers.append({"i": i, "cmd": cmd, "T": T, "prio": pr, "start": start, "kind": kinds[i], "outcome": None, "t_start": None, "t_done": None})
 
     async def caller(c):
@@ -547,7 +553,7 @@ def oracle_c07(env, cfg, obs):
         if o[0] == "pkt":
             owner, kind = o[1]
             # an equal-header packet (a repeat / stale copy of this command's echo or reply) belongs too
-            mine = (owner == i) or (cfg.get("twins") and owner == 0)  # twins: equal frames, the packets belong to both
+            mine = bool((owner == i) or (cfg.get("twins") and owner == 0))  # twins: equal frames, the packets belong to both
             env.check(mine and kind in ("echo", "reply", "stray-old-echo", "stray-old-reply"), "C07:packet-belongs-to-this-command", info=str(o))
             if kind == "echo" and effective_wait_for_reply(cfg, c["kind"]) and c["kind"] in ("RQ", "W"):
                 env.check(False, "C07:reply-awaited-but-echo-returned", info=str(o))
@@ -753,6 +759,8 @@ def configs(prop, tier):
     out.append(("lat[r=0,T=sym]", dict(max_retries=0, wait_for_reply=True, timeout="sym", deliveries=1, latency=True, probe=True)))
     out.append(("lat[r=1,w=True]", dict(max_retries=1, wait_for_reply=True, deliveries=2, latency=True, probe=True)))
     out.append(("lat[r=1,disconnect,T=sym]", dict(max_retries=1, wait_for_reply=True, timeout="sym", disconnect=2, deliveries=1, latency=True, probe=True)))
+    # a second caller arriving around the instant the first caller's own timeout fires (its command still waiting)
+    out.append(("lat[two,r=0,T0=sym,stagger]", dict(ncmd=2, max_retries=0, wait_for_reply=True, timeout=["sym", 20.0], Tmax=0.4, stagger=1, near_T0=True, deliveries=1, latency=True, probe=True)))
     if thorough:
         out.append(("two[r=1,T=sym,both]", dict(ncmd=2, max_retries=1, wait_for_reply=True, timeout="sym", deliveries=2, probe=True)))
         out.append(("lat[r=3,w=True,T=sym]", dict(max_retries=3, wait_for_reply=True, timeout="sym", deliveries=2, latency=True, probe=True)))
